@@ -21,6 +21,7 @@ static int viol_ctx, viol_null_item;
 static char cur_op[32] = "none";
 static int op_a, op_b;
 static int last_val;
+static int status_returns, finish_after;
 static char last_call[16] = "none";
 static int client_done;
 static int worker_ticket[MAXN];
@@ -66,6 +67,7 @@ static void *client(void *arg)
 			strcpy(cur_op, "st_lock");
 			last_val = pool->get_status(pool);
 			strcpy(last_call, "status");
+			status_returns++;
 		} else if (!strcmp(cur_op, "setptr")) {
 			strcpy(cur_op, "sp_lock");
 			pool->set_worker_ptr(pool, op_a - 1, (void *)(long)op_b);
@@ -167,6 +169,7 @@ int main(int argc, char **argv)
 		int t;
 		if (sscanf(line, "FAIL %d", &t) == 1) { if (t >= 1 && t <= N) failset[t] = 1; }
 		else if (sscanf(line, "CREATEFAIL %d", &t) == 1) sched_fail_create_at = t;
+		else if (sscanf(line, "FINISH %d", &t) == 1) finish_after = t;
 		else if (sscanf(line, "MODE %15s %ld %d %d", mode, &seed, &maxsteps, &nspur) >= 1) break;
 	}
 	sched_spawn(client, NULL);
@@ -200,9 +203,15 @@ int main(int argc, char **argv)
 				printf("{\"step\":%d,\"deadlock\":true}\n", step); rc = 1; break;
 			}
 		}
-	} else {
+	}
+	/* FINISH 1: after the given schedule (followed as far as it can be followed) the run is completed under a fair scheduler: the client
+	 * drains the pool, asks for the status and destroys it; the property monitors stay on.  A behaviour of the real pool that is not
+	 * step-for-step the specification's is judged by this completed run, not by the alignment of single steps. */
+	int finishing = !strcmp(mode, "replay") && finish_after && (rc == 0 || rc == 4);
+	if (finishing) { rc = 0; maxsteps = step + 600; }
+	if (strcmp(mode, "replay") || finishing) {
 		rng_s = (unsigned long long)seed * 2654435761ULL + 12345;
-		int subs = 0, want_destroy = 0, deq_nulls = 0;
+		int subs = finishing ? N : 0, want_destroy = 0, deq_nulls = 0, st_pending = -1, st_expect = 0, asked = 0;
 		while (step < maxsteps && !sched_all_finished()) {
 			int cand[64], nc = 0;
 			for (int i = 0; i < sched_nthreads(); ++i) if (sched_enabled(i)) cand[nc++] = i;
@@ -217,6 +226,13 @@ int main(int argc, char **argv)
 			if (tid == 0 && sched_kind(0) == PK_YIELD) {
 				const char *op;
 				int r = rnd(10);
+				if (finishing && !want_destroy && !asked && (nreturned >= submitted || deq_nulls > 0)) {
+					/* every worker parked: a failure that happened has been recorded by now, the status call has to show it */
+					int parked = 1, failed = 0;
+					for (int i = 1; i < sched_nthreads(); ++i) if (sched_kind(i) != PK_WAIT && sched_kind(i) != PK_FINISHED) parked = 0;
+					for (int i = 1; i <= N; ++i) if (failset[i] && processed[i]) failed = 1;
+					if (parked) { op = "st"; asked = 1; st_pending = status_returns; st_expect = failed; goto chosen; }
+				}
 				if (want_destroy) op = "des";
 				else if (subs < N && r < 5) { op = "sub"; subs++; }
 				else if (r < 8) op = "deq";
@@ -224,6 +240,8 @@ int main(int argc, char **argv)
 				else op = (nreturned >= submitted && subs >= N) || rnd(6) == 0 ? "des" : "deq";
 				if (!strcmp(op, "deq") && nreturned >= submitted) { if (++deq_nulls > 3) want_destroy = 1; }
 				if (last_val != 0 && !strcmp(last_call, "status")) want_destroy = 1;
+				if (finishing && asked && st_pending < 0) want_destroy = 1;
+chosen:
 				strcpy(cur_op, op);
 				printf("{\"step\":%d,\"sched\":\"S 0 %s\"}\n", step, op);
 			} else
@@ -231,6 +249,10 @@ int main(int argc, char **argv)
 			int r = sched_step(tid);
 			if (r == -2) { printf("{\"step\":%d,\"hang\":%d}\n", step, tid); rc = 3; break; }
 			int m = check_monitors();
+			if (!m && st_pending >= 0 && status_returns > st_pending) {
+				if (st_expect && last_val == 0) m = 5;		/* a worker failed, every worker is parked, get_status says 0 */
+				st_pending = -1;
+			}
 			if (m) { project(step, "step"); printf("{\"step\":%d,\"monitor\":%d}\n", step, m); rc = 1; break; }
 		}
 		project(step, "end");
